@@ -91,10 +91,10 @@ theorem ops_only_on_created_urr (s : Sess) (ie : RuleIE) (c : Ctx) (id : Nat) (h
 /-! ### non-vacuity: a failed create is still cleaned up when the session is deleted -/
 example :
     let st0 : State := {}
-    let (st1, _) := step st0 (.request "p1" 1 (.assoc (some "4:p1"))) {}
+    let (st1, _) := step st0 (.request "p1" 1 (.assoc (some (.v4 "p1")))) {}
     -- establishment: FAR 1 is created, the create of FAR 2 fails in the data plane
     let env2 : Env := { pending := [(default, { ok := true }), (default, { ok := false })] }
-    let req : EstReq := { nodeID := some "4:p1", cpSeid := some 9#64, far := [{ id := some 1 }, { id := some 2 }] }
+    let req : EstReq := { nodeID := some (.v4 "p1"), cpSeid := some 9#64, far := [{ id := some 1 }, { id := some 2 }] }
     let (st2, o2) := step st1 (.request "p1" 2 (.est req)) env2
     -- deletion: both are removed (the second remove fails naturally: the rule is absent)
     let env3 : Env := { pending := [(default, { ok := true }), (default, { ok := false })] }
